@@ -402,6 +402,33 @@ func (s *sys) oracle(fullSubst *int32Budget) string {
 				return f + fmt.Sprintf(" (key %q)", k)
 			}
 		}
+		// (2b) forged short proofs: the subtree below level i is replaced by its hash, written into the side
+		// the honest proof leaves empty, and the levels below are dropped. Every hash in it is genuine; only
+		// the binding of the claimed key/value to the path is gone, so it must verify for nothing.
+		{
+			leaf := types.LeafNode{Key: K, Value: V, Height: 0, Size: 1}
+			child := leaf.Hash()
+			for i := range dec.InnerNodes {
+				q := clone(&dec)
+				if len(q.InnerNodes[i].LeftHash) == 0 {
+					q.InnerNodes[i].LeftHash = child
+				} else {
+					q.InnerNodes[i].RightHash = child
+				}
+				q.InnerNodes = q.InnerNodes[i:]
+				fb := types.Encode(q)
+				if f := judge("forged:subtree-hash-inlined", true, gen, root, K, V, fb); f != "" {
+					return f + fmt.Sprintf(" (key %q, level %d)", k, i)
+				}
+				if f := judge("forged:subtree-hash-inlined+other-value", false, gen, root, K, []byte(flipVal(v)), fb); f != "" {
+					return f + fmt.Sprintf(" (key %q, level %d)", k, i)
+				}
+				if f := judge("forged:subtree-hash-inlined+absent-key", false, gen, root, []byte("zz-absent"), []byte("v1"), fb); f != "" {
+					return f + fmt.Sprintf(" (level %d)", i)
+				}
+				child = mavldb.InnerNodeProofHash(child, dec.InnerNodes[i])
+			}
+		}
 		// (3) every proper prefix and single-byte substitutions of the honest proof bytes
 		if once("proofs", string(proof), s.hist) { // byte-level families once per distinct honest proof
 			for n := 0; n < len(proof); n++ {
